@@ -894,3 +894,96 @@ func ctxHandOvers(fns []*ssa.Function) []ctxHandOver {
 	}
 	return out
 }
+
+// RESLICE-APPEND: append(x[:k], …) writes into x's backing array from position k on. When x is a parameter (the caller's
+// slice) or a slice held in a field of a shared object, that is an in-place update of somebody else's storage: the
+// filter-in-place idiom `hit := keys[:0]` is only sound on a slice the function owns.
+type resliceAppend struct {
+	fn   *ssa.Function
+	call *ssa.Call
+	root string
+}
+
+func resliceAppends(fns []*ssa.Function) []resliceAppend {
+	var out []resliceAppend
+	for _, fn := range fns {
+		instrs(fn, func(in ssa.Instruction) {
+			c, ok := in.(*ssa.Call)
+			if !ok || !isBuiltin(c, "append") || len(c.Call.Args) == 0 {
+				return
+			}
+			// first operand: a re-slice (possibly through phis of the loop that accumulates) of foreign storage
+			seen := map[ssa.Value]bool{}
+			var root func(v ssa.Value, d int) string
+			root = func(v ssa.Value, d int) string {
+				if d > 6 || seen[v] {
+					return ""
+				}
+				seen[v] = true
+				switch x := v.(type) {
+				case *ssa.Slice:
+					if x.High == nil && x.Low == nil {
+						return ""
+					}
+					if x.High == nil {
+						return "" // x[k:] keeps the tail: appending extends past the end like a plain append
+					}
+					switch b := x.X.(type) {
+					case *ssa.Parameter:
+						if _, isSlice := b.Type().Underlying().(*types.Slice); isSlice {
+							return "parameter " + b.Name()
+						}
+					case *ssa.UnOp:
+						if f, _ := loadedField(b); f != nil {
+							return "field " + f.Name()
+						}
+					}
+				case *ssa.Phi:
+					for _, e := range x.Edges {
+						if r := root(e, d+1); r != "" {
+							return r
+						}
+					}
+				case *ssa.Call:
+					if isBuiltin(x, "append") && len(x.Call.Args) > 0 {
+						return root(x.Call.Args[0], d+1)
+					}
+				}
+				return ""
+			}
+			if rt := root(c.Call.Args[0], 0); rt != "" {
+				out = append(out, resliceAppend{fn, c, rt})
+			}
+		})
+	}
+	return out
+}
+
+func ruleResliceAppend(w *World, r *Report, rule string, pkgs ...string) int {
+	ras := resliceAppends(w.RepoFuncs(pkgs...))
+	n := 0
+	for _, ra := range ras {
+		n++
+		construct := fmt.Sprintf("%s: append on a re-slice of %s", w.fname(origin(ra.fn)), ra.root)
+		// the owner's own delete-in-place: the result goes straight back into the same field
+		storedBack := false
+		if strings.HasPrefix(ra.root, "field ") {
+			for _, ref := range *ra.call.Referrers() {
+				if st, ok := ref.(*ssa.Store); ok {
+					if fa, ok := st.Addr.(*ssa.FieldAddr); ok && "field "+fieldVarOfAddr(fa).Name() == ra.root {
+						storedBack = true
+					}
+				}
+			}
+		}
+		if storedBack {
+			r.OK(rule, construct, ra.call.Pos(), "delete-in-place on the owner's own field, stored back to it")
+			continue
+		}
+		r.Fail(rule, construct, ra.call.Pos(), "append(x[:k], …) overwrites x's backing array from position k on, and x is not this function's own storage: a filter-in-place over a configured list (e.g. the interrupt-before nodes) rewrites the list itself — entries disappear for the rest of this run, for the resumed run and for every later run of the compiled graph, and concurrent runs race on it")
+	}
+	if n == 0 {
+		r.OK(rule, "no append on a re-slice of a parameter or of a shared field in "+strings.Join(pkgs, ", "), token.NoPos, "none present")
+	}
+	return n
+}
